@@ -201,6 +201,10 @@ theorem C09_miner_sees_mining {n : Nat} {k : K} (ls : List Label) (hr : run (ini
     the model covers (regenerated fact), so the theorems speak for both -/
 theorem C09_v2_same_code_fact : Facts.keeperV2SameAsV1 = true := by decide
 
+/-- the guards and assignments of `StopWS` / `cancelRequests` that the model's `stop` label transcribes stand in the
+    source as transcribed (regenerated) -/
+theorem C09_condition_facts : Facts.condKeeperStop = true ∧ Facts.condKeeperCancel = true := by decide
+
 /-! ### the theorems are not vacuous: concrete schedules reach the states they talk about -/
 
 /-- a schedule in which space 1 is plotted, mined, stopped; space 0 is requested, stopped while its
